@@ -42,6 +42,8 @@ import itertools
 import json
 import logging
 import multiprocessing
+import os
+import signal
 import socket
 import time
 from enum import Enum
@@ -297,12 +299,21 @@ class Scheduler:
         if proc is None:
             return
 
-        proc.kill()
+        self._signal_process_group(proc, signal.SIGKILL)
         await asyncio.sleep(1)
         if proc.returncode is None:
             await asyncio.sleep(10)
-            proc.terminate()
+            self._signal_process_group(proc, signal.SIGTERM)
         await proc.wait()
+
+    @staticmethod
+    def _signal_process_group(proc, sig):
+        # The task's shell runs in its own session (see try_handle_task), so
+        # signalling its process group also reaches the commands it started.
+        try:
+            os.killpg(proc.pid, sig)
+        except ProcessLookupError:
+            pass
 
     async def try_handle_task(self, tid, name, script, working_dir, time_limit, deps):
         proc = None
@@ -327,6 +338,7 @@ class Scheduler:
                 stdout=asyncio.subprocess.PIPE,
                 stderr=asyncio.subprocess.PIPE,
                 cwd=working_dir,
+                start_new_session=True,
             )
             try:
                 logger.debug("task starting")
